@@ -19,6 +19,16 @@ from .interp import Hooks
 GRAPH_FIELDS = ('$base', '$edges', '$nodes')
 
 
+def ctor_params(prog, ci, documented):
+    """names of the constructor's parameters, by position (the documented
+    names unless the source calls them differently)"""
+    f = prog.method(ci, '__init__', own=True)
+    if f is None:
+        return list(documented)
+    names = [a.arg for a in f.node.args.args[1:1 + len(documented)]]
+    return names if len(names) == len(documented) else list(documented)
+
+
 class GraphHooks(Hooks):
     """mix-in: intercepts graph primitives"""
 
@@ -166,14 +176,16 @@ class GraphHooks(Hooks):
         a = list(args)
         none = Const(None)
         if ci.is_subclass_of(self.kripke):
-            names = ['S', 'S0', 'R', 'L']
+            names = ctor_params(self.gprog, self.kripke,
+                                ['S', 'S0', 'R', 'L'])
         else:
-            names = ['V', 'E']
+            names = ctor_params(self.gprog, self.digraph, ['V', 'E'])
         vals = {}
         for i, n in enumerate(names):
             vals[n] = a[i] if i < len(a) else kwd.get(n, none)
         V = I.snapshot(vals[names[0]], path)
-        E = I.snapshot(vals['R' if 'R' in vals else 'E'], path)
+        # the edges: third parameter of Kripke, second of DiGraph
+        E = I.snapshot(vals[names[2] if len(names) == 4 else names[1]], path)
         op = 'mkkripke' if ci.is_subclass_of(self.kripke) else 'mkgraph'
         return [(path, self.new_graph(I, App(op, V, E), path, node, ci=ci))]
 
